@@ -24,6 +24,9 @@ def load(prop: str):
         raise
 
 
+DEFAULT_ROOT = "/repo"
+
+
 def run_prop(prop: str, repo: Repo, tier: str) -> Report:
     mod = load(prop)
     if mod is None:
@@ -43,7 +46,8 @@ def check(prop: str, root: str, tier: str, seed: int) -> int:
 
             st = selftest.run_corpus(prop, root, seed)
             rep.extra["sensitivity_corpus"] = st["summary"]
-        code = finish(rep, seed=seed)
+        # evidence and replay files describe /repo; runs against scratch copies (sweeps) leave them alone
+        code = finish(rep, seed=seed, write=os.path.realpath(root) == os.path.realpath(DEFAULT_ROOT))
         if st is not None and st["broken"]:
             for line in st["broken"]:
                 print("SELFTEST-BROKEN:", line)
